@@ -132,11 +132,23 @@ def run(ctx):
             if not err <= 2e-6:
                 ctx.violation("WGS-84 + GMST reconstruction of (lon, lat, alt) misses the position by more than 2e-6 of its length",
                               {"signature": "C04:roundtrip:%d:%d" % (ti, j), **base, "relative_error": err, "lla": [float(lon[j]), float(lat[j]), float(alt[j])], "pos": [float(v) for v in p]})
-            # scalar call agrees with the array element
+            # the same instant as a scalar: same answer (1e-6, C08) and the same round trip; a scalar call
+            # leaves the latitude loop on its own exit test, an array only when every element has
+            slon, slat, salt = orb.get_lonlatalt(t)
+            if abs(float(slon) - float(lon[j])) > 1e-6 or abs(float(slat) - float(lat[j])) > 1e-6 or abs(float(salt) - float(alt[j])) > 1e-6:
+                ctx.violation("scalar and array sub-satellite points differ", {"signature": "C04:scalar-array:%d:%d" % (ti, j), **base,
+                                                                              "scalar": [float(slon), float(slat), float(salt)], "array": [float(lon[j]), float(lat[j]), float(alt[j])]})
+            rec_s = wgs84_eci(float(slon), float(slat), float(salt), g)
+            err_s = math.dist(rec_s, p) / float(np.linalg.norm(p))
+            if not err_s <= 2e-6:
+                ctx.violation("WGS-84 + GMST reconstruction of the scalar (lon, lat, alt) misses the position by more than 2e-6 of its length",
+                              {"signature": "C04:roundtrip-scalar:%d:%d" % (ti, j), **base, "relative_error": err_s, "lla": [float(slon), float(slat), float(salt)], "pos": [float(v) for v in p]})
+            ps, _vs = orb.get_position(t, normalize=False)
+            mlon, mlat, malt = geoloc.get_lonlatalt(np.asarray(ps, dtype=float), t)
+            if not (float(mlon) == float(slon) and float(mlat) == float(slat) and float(malt) == float(salt)):
+                ctx.violation("object method and module function disagree on a scalar instant",
+                              {"signature": "C04:method-module-scalar:%d:%d" % (ti, j), **base, "method": [float(slon), float(slat), float(salt)], "module": [float(mlon), float(mlat), float(malt)]})
             if j == 0:
-                slon, slat, salt = orb.get_lonlatalt(t)
-                if abs(float(slon) - float(lon[j])) > 1e-6 or abs(float(slat) - float(lat[j])) > 1e-6 or abs(float(salt) - float(alt[j])) > 1e-6:
-                    ctx.violation("scalar and array sub-satellite points differ", {"signature": "C04:scalar-array:%d" % ti, **base})
                 loc = orb.utc2local(t.astype(dt.datetime))
                 want = t.astype(dt.datetime) + dt.timedelta(hours=float(slon) / 15.0)
                 if abs((loc - want).total_seconds()) > 1e-5:
